@@ -31,7 +31,8 @@ META = {
     'technique': 'Coq proof about an executable Gallina model + kernel-evaluated correspondence with the implementation',
     'rule': ('sessions = random histories (<= 40 operations quick, <= 60 thorough) over a pool of input files from every '
              'end-use/plant/economic-model family plus requests failing in the reader, in Calculate and by sys.exit, files '
-             'missing/deleted/rewritten between calls, 1-3 clients with caching on/off, dict-built requests, chdir, argv '
+             'missing/deleted/rewritten between calls, 1-3 clients with caching on/off, dict-built requests, requests built from '
+             'a base file plus overriding params (same params over different bases and conversely), chdir, argv '
              'assignments, in-process CLI runs; one fresh process per session, PYTHONHASHSEED in {0,1,random}; corpus '
              'seeds first. evaluations = operations executed; a step is non-trivial when it is a request; distinct = distinct '
              '(operation, outcome, cache state, previous outcome, cwd moved, file changed since last request) signatures'),
@@ -85,7 +86,7 @@ def _signatures(session, result):
             moved = True
         elif op[0] in ('write', 'delete'):
             changed.add(op[1])
-        elif op[0] in ('get', 'getdict', 'cli'):
+        elif op[0] in ('get', 'getdict', 'getmix', 'cli'):
             p = op[2] if op[0] != 'cli' else op[1]
             cache = caching[op[1]] if op[0] != 'cli' and op[1] < len(caching) else None
             out = (o[0], bool(o[2])) if o[0] == 'ret' else (o[0], o[1] if o[0] == 'raised' else None)
@@ -160,7 +161,7 @@ def _still(ctx, cands, contents, refs, key):
     return out
 
 
-def build_pool(ctx, n):
+def build_pool(ctx, n, with_mixes=True):
     texts, failing = S.content_pool(ctx, n)
     contents = texts + failing
     refs = S.References(ctx, contents)
@@ -173,9 +174,11 @@ def build_pool(ctx, n):
             ok_ids.append(c)
         elif r[0] != 'ret':
             bad_ids.append(c)
-    ctx.count('pool', evaluations=len(contents), contents_ok=len(ok_ids), contents_failing=len(bad_ids),
+    mixes = S.combos(contents, ok_ids[:2] + ok_ids[-2:] + bad_ids[:1]) if with_mixes else []
+    refs.ensure(range(len(contents)))
+    ctx.count('pool', evaluations=len(contents), contents_ok=len(ok_ids), contents_failing=len(bad_ids), base_plus_params=len(mixes),
               failing_kinds={refs.of(c)[2][:60]: 1 for c in bad_ids})
-    return contents, refs, ok_ids, bad_ids
+    return contents, refs, ok_ids, bad_ids, mixes
 
 
 def memo_ties(ctx, entries, memo_hits):
@@ -243,21 +246,20 @@ def memo_ties(ctx, entries, memo_hits):
 
 def correspondence(ctx, proofs_ok=True):
     entries = c08_memo.scan()
-    contents, refs, ok_ids, bad_ids = build_pool(ctx, 12 if ctx.quick else 36)
+    contents, refs, ok_ids, bad_ids, mixes = build_pool(ctx, 12 if ctx.quick else 36)
     memo_hits = {}
     sessions = []
     for d in corpus_sessions():   # corpus sessions carry their own contents: give them ids after the pool
         base = len(contents)
         contents += d['contents']
-        ops = [([o[0], o[1], o[2] + base] if o[0] == 'write' else ([o[0], o[1], o[2], o[3] + base] if o[0] == 'getdict' else o))
-               for o in d['ops']]
+        ops = S.map_contents(d['ops'], lambda c: c + base)
         sessions.append(dict(d, ops=ops, part='corpus'))
     rnd = ctx.rng
     seeds = ['0', '1'] + [str(rnd.randrange(2, 2 ** 32)) for _ in range(ctx.n(2, 6))]
     boost = ctx.quick and getattr(ctx, 'boost', False)   # modelled source changed: twice the quick volume (x4 would exceed the quick budget)
     n = 96 if boost else (48 if ctx.quick else 800)
     lo, hi = (12, 40) if ctx.quick else (20, 60)   # not through ctx.n: it scales numbers
-    sessions += [S.gen_session(rnd, ok_ids, bad_ids, rnd.randint(lo, hi), seeds) for _ in range(n)]
+    sessions += [S.gen_session(rnd, ok_ids, bad_ids, rnd.randint(lo, hi), seeds, mixes) for _ in range(n)]
     batch = 240
     for lo in range(0, len(sessions), batch):
         _, mh = evaluate(ctx, 'histories', sessions[lo:lo + batch], contents, refs, tag=f'h{lo // batch}')
@@ -270,9 +272,9 @@ def correspondence(ctx, proofs_ok=True):
 
 def search(ctx):
     """Only model/proof disagreements so far: look for a history on which the PROPERTY fails on the real code."""
-    contents, refs, ok_ids, bad_ids = build_pool(ctx, 12)
+    contents, refs, ok_ids, bad_ids, mixes = build_pool(ctx, 12)
     rnd = ctx.rng
-    sessions = [S.gen_session(rnd, ok_ids, bad_ids, rnd.randint(15, 50), ['0', '1', str(rnd.randrange(2, 2 ** 32))])
+    sessions = [S.gen_session(rnd, ok_ids, bad_ids, rnd.randint(15, 50), ['0', '1', str(rnd.randrange(2, 2 ** 32))], mixes)
                 for _ in range(ctx.n(96, 480))]
     evaluate(ctx, 'search', sessions, contents, refs)
 
